@@ -428,7 +428,8 @@ def sc123(P, C):
     C.rule("SC-1", "searchcenters: the only failure exit is guarded, per dimension and before any store to centers[i], by the rejection of "
            "x <= first knot or x > last knot (ordered semantics, modulo negation); `return true` only after the loop; no other exit", floor=3)
     C.rule("SC-2", "margin clamps assign order[i] under x < knots[order] and naxes[i]-1 under x >= knots[naxes]; the post-search adjustment "
-           "decrements exactly when the centre equals naxes[i]; the binary search runs over [order, nknots-2]", floor=4)
+           "decrements exactly when the centre equals naxes[i]; the binary search runs over [order, nknots-2], halves its interval each step and "
+           "can only be left with knots[c] <= x < knots[c+1]", floor=6)
     C.rule("SC-3", "operator() (table and evaluator) evaluates only when lookup succeeded and returns literal 0 otherwise; the C lookup forwards the result", floor=3)
     f = search_fn(P)
     loops = [i for i in f.walk() if f.k(i) == "ForStmt"]
@@ -493,6 +494,24 @@ def sc123(P, C):
                     inits[d["name"]] = f.render(d["init"]).replace("this->", "").replace(" ", "")
     C.ob("SC-2", "searchcenters", "search-interval", inits.get("min") == "order[i]" and inits.get("max") == "(nknots[i]-2)", f.where(),
          "binary search over [order, nknots-2]: min=%s max=%s" % (inits.get("min"), inits.get("max")))
+    # the bracket: the search loop can only be left with knots[c] <= x < knots[c+1]
+    dw = [i for i in f.walk() if f.k(i) == "DoStmt"]
+    okb = False
+    det = "no do-while search loop"
+    if len(dw) == 1:
+        conn, leaves = core.cond_leaves(f, f.nodes[dw[0]]["cond"])
+        rels = set(frel(f, l) for l in leaves)
+        want = {("$0[#]", "<", "knots[#][$1[#]]"), ("$0[#]", ">=", "knots[#][($1[#]+1)]")}
+        okb = conn == "||" and rels == want
+        det = "the search continues while %s" % " or ".join("%s %s %s" % r for r in sorted(x for x in rels if x))
+        # the loop body only halves the interval: centre = (max+min)/2, then max = centre-1 under x < knots[centre] else min = centre+1
+        body = f.alpha(f.nodes[dw[0]]["body"])[0].replace(" ", "")
+        okh = body == "CompoundStmt(($1[v0]=((v1+v2)/2)),IfStmt(($0[v0]<knots[v0][$1[v0]]),(v1=($1[v0]-1)),(v2=($1[v0]+1))))"
+        C.ob("SC-2", "searchcenters", "bisection-step", okh, f.loc(dw[0]),
+             "each step sets the centre to the midpoint and moves one end of the interval past it: %s" % body[:160])
+    C.ob("SC-2", "searchcenters", "bracket-at-exit", okb, f.loc(dw[0]) if dw else f.where(),
+         det + " — so, if it terminates, knots[c] <= x < knots[c+1]; with the clamps (x >= knots[order], x < knots[naxes]) and sorted knots this "
+         "gives order <= c <= naxes-1 = nknots-order-2")
     # SC-3 wiring
     ops = [g for g in P.fns("operator()") if g.unit == "driver" and "/bspline_eval.h" in g.file and g.kind == "method"]
     if len(ops) < 3:
@@ -513,3 +532,222 @@ def sc123(P, C):
             ok = bool(cal) and cal["name"] == "searchcenters" and neg and lit0 and after
             det = "if(!searchcenters) return 0; evaluation only afterwards: lookup=%s negated=%s returns-literal-0=%s evaluation-after=%s" % (cal["name"] if cal else None, neg, lit0, after)
         C.ob("SC-3", nm, "zero-on-failure", ok, g.where(), det)
+
+
+# ------------------------------------------------------------------ KB-5: affine index ranges in the basis recurrences
+def _loop_env(f, node, base_env):
+    """ranges of the loop variables enclosing `node`: var name -> (lo Poly, hi Poly) from `for (v = a; v < b; v++)` / `v > b; v--`."""
+    env = dict(base_env)
+    loops = [a for a in f.ancestors(node) if f.k(a) == "ForStmt"]
+    for L in reversed(loops):
+        n = f.nodes[L]
+        cn = f.strip(n["cond"]) if n.get("cond", -1) >= 0 else -1
+        if cn < 0 or f.k(cn) != "BinaryOperator":
+            continue
+        v = f.strip(f.nodes[cn]["ch"][0])
+        if f.k(v) != "DeclRefExpr":
+            continue
+        name = f.nodes[v]["decl"]["name"]
+        bound = core.poly(f, f.nodes[cn]["ch"][1])
+        init = None
+        ini = n.get("init", -1)
+        if ini >= 0:
+            if f.k(ini) == "DeclStmt":
+                for d in f.nodes[ini]["decls"]:
+                    if d.get("name") == name and d.get("init", -1) >= 0:
+                        init = core.poly(f, d["init"])
+            else:
+                ap = ts.assign_parts(f, f.strip(ini))
+                if ap and ap[1] is not None and f.render(ap[0]) == name:
+                    init = core.poly(f, ap[1])
+        op = f.nodes[cn]["op"]
+        one = Poly.const(1)
+        inc = f.render(n["inc"]).replace(" ", "") if n.get("inc", -1) >= 0 else ""
+        if op == "<" and inc in ("(%s++)" % name, "(++%s)" % name):
+            if init is None:
+                # `for ( ; j < B; j++)` continues an ascending loop over the same variable: it cannot be below that loop's start
+                init = _previous_init(f, L, name)
+            env[name] = (init, bound - one)
+        elif op in (">", ">=") and inc in ("(%s--)" % name, "(--%s)" % name):
+            lo = bound + one if op == ">" else bound
+            if init is None:
+                init = _previous_init(f, L, name)
+            env[name] = (lo, init)
+    return env
+
+
+def _previous_init(f, L, name):
+    """initial value of `name` in the nearest preceding sibling for-loop over the same variable (continuation idiom `for ( ; j < B; j++)`)."""
+    par = f.parent[L]
+    if par < 0:
+        return None
+    sib = f.ch(par)
+    if L not in sib:
+        return None
+    for s_ in reversed(sib[:sib.index(L)]):
+        if f.k(s_) == "ForStmt":
+            ini = f.nodes[s_].get("init", -1)
+            if ini >= 0:
+                ap = ts.assign_parts(f, f.strip(ini))
+                if ap and ap[1] is not None and f.render(ap[0]) == name:
+                    return core.poly(f, ap[1])
+                if f.k(ini) == "DeclStmt":
+                    for d in f.nodes[ini]["decls"]:
+                        if d.get("name") == name and d.get("init", -1) >= 0:
+                            return core.poly(f, d["init"])
+    return None
+
+
+def _bound(p, env, which, depth=0):
+    """upper ('hi') or lower ('lo') bound of a linear Poly p.  Ranged atoms are eliminated one at a time, inner loop variables (whose
+    own bounds mention other ranged atoms) first, each replaced by the end of its range chosen by the sign of its coefficient; like
+    terms cancel symbolically (j - i with i <= j gives 0, not j_lo - j_hi)."""
+    for _ in range(12):
+        ranged = [a for a in p.atoms() if a in env]
+        if not ranged:
+            return p
+        if any(len(m) > 1 for m in p.t):
+            return None
+
+        def depends(a):
+            lo, hi = env[a]
+            at = set()
+            for q in (lo, hi):
+                if q is not None:
+                    at |= q.atoms()
+            return len([x for x in at if x in env and x != a])
+        a = sorted(ranged, key=lambda x: -depends(x))[0]
+        c = p.t.get((a,), 0)
+        lo, hi = env[a]
+        pick = hi if ((c > 0) == (which == "hi")) else lo
+        if pick is None:
+            return None
+        p = p - Poly({(a,): c}) + pick * Poly.const(c)
+    return None
+
+
+def _nonneg(p, facts):
+    """is the linear Poly p >= 0, given lower bounds `facts` (atom -> Poly) for its atoms?  Atoms with positive coefficient are replaced by
+    their lower bound (repeatedly); a remaining negative coefficient cannot be discharged."""
+    for _ in range(6):
+        if any(len(m) > 1 for m in p.t):
+            return False
+        if any(c < 0 for m, c in p.t.items() if m):
+            return False
+        todo = [m[0] for m, c in p.t.items() if m and m[0] in facts]
+        if not todo:
+            break
+        a = todo[0]
+        c = p.t[(a,)]
+        p = p - Poly({(a,): c}) + facts[a] * Poly.const(c)
+    return all(c >= 0 for c in p.t.values())
+
+
+def _refine(f, node, env, left):
+    """branch facts of the form `if ((v = E) > 0)` for the then-branch: v := E and E >= 1 bounds `left` from one side."""
+    env = dict(env)
+    for a in f.ancestors(node):
+        if f.k(a) != "IfStmt":
+            continue
+        if f.nodes[a]["then"] not in [node] + list(f.ancestors(node)):
+            continue
+        c = f.strip(f.nodes[a]["cond"])
+        n = f.nodes[c]
+        if n["k"] == "BinaryOperator" and n["op"] == ">" and f.nodes[f.strip(n["ch"][1])].get("cv") == 0:
+            inner = f.strip(n["ch"][0])
+            ap = ts.assign_parts(f, inner)
+            if ap and ap[1] is not None and f.k(f.strip(ap[0])) == "DeclRefExpr":
+                v = f.nodes[f.strip(ap[0])]["decl"]["name"]
+                E = core.poly(f, ap[1])
+                env[v] = (E, E)
+                cl = E.t.get((left,), 0)
+                rest = E - Poly({(left,): cl})
+                lo, hi = env.get(left, (None, None))
+                if cl == -1:      # rest - left >= 1  =>  left <= rest - 1
+                    env[left] = (lo, rest - Poly.const(1))
+                elif cl == 1:     # left + rest >= 1  =>  left >= 1 - rest
+                    env[left] = (Poly.const(1) - rest, hi)
+    return env
+
+
+def kb5(P, C):
+    C.rule("KB-5", "every knots[e] read and every output/scratch store in the basis kernels has an affine index whose range — from left in "
+           "[-1, nknots-1] (the margin-shift guards), the enclosing loop ranges and the call-site arguments of bsplvb — lies inside the padded "
+           "knot array [-order, nknots-1+order], the order+1 output slots and the scratch arrays", floor=40)
+    n_ob = 0
+    bs = {tuple(g.targs): g for g in P.fns("bsplvb") if g.unit == "driver"}
+    for f in kernels(P):
+        conv = KERNELS[f.name][0]
+        pn = [p["name"] for p in f.params]
+        knots, nk, left, ordp = pn[0], pn[1], pn[3], pn[4]
+        NK, O = Poly.atom(nk), Poly.atom(ordp)
+        one = Poly.const(1)
+        pad = O if conv == "order" else O - one
+        base_env = {left: (Poly.const(-1), NK - one)}
+        pos_, dom_ = f.node_positions(), f.dominators()
+        # lower bounds of the symbols: well-formed table (nknots >= 2*order+2), degree >= 1, order >= 0 (>= 1 below a dominating `n == 0` return)
+        facts = {nk: (O + O + Poly.const(2)) if conv == "order" else (O + O)}
+        facts[ordp] = Poly.const(1) if conv == "degree" else Poly.const(0)
+        has_zero_return = conv == "order" and any(
+            f.k(x) == "IfStmt" and core.rel_canon(f, f.nodes[x]["cond"], vg.atomizer(f, ())) == (core.eq_norm(vg.P_("$4")), "==0")
+            and any(f.k(y) == "ReturnStmt" for y in f.walk(f.nodes[x]["then"])) and f.parent[x] == f.body for x in f.walk())
+        sites = []
+        for i in f.walk():
+            if f.k(i) == "ArraySubscriptExpr":
+                b = f.strip(f.nodes[i]["ch"][0])
+                if f.k(b) == "DeclRefExpr":
+                    sites.append((f, i, f.nodes[b]["decl"]["name"], {}, kname(f)))
+        # bsplvb bodies with the call-site arguments substituted
+        for ci, cal in f.calls():
+            if cal and cal["name"] == "bsplvb":
+                g = P.functions.get(cal["usr"])
+                if g is None:
+                    continue
+                a = f.args(ci)
+                gp = [p["name"] for p in g.params]
+                sub = {gp[2]: core.poly(f, a[2]), gp[3]: core.poly(f, a[3]), gp[4]: core.poly(f, a[4])}
+                for i in g.walk():
+                    if g.k(i) == "ArraySubscriptExpr":
+                        b = g.strip(g.nodes[i]["ch"][0])
+                        if g.k(b) == "DeclRefExpr":
+                            nm = g.nodes[b]["decl"]["name"]
+                            caller_name = {gp[0]: knots, gp[5]: "OUT", gp[6]: "SCRATCH", gp[7]: "SCRATCH"}.get(nm, nm)
+                            sites.append((g, i, caller_name, sub, "%s -> bsplvb(%s)" % (kname(f), ", ".join(f.render(x) for x in a[3:5]))))
+        for (g, i, arr, sub, where) in sites:
+            env = _loop_env(g, i, {})
+            idx = core.poly(g, g.nodes[i]["ch"][1])
+            # express everything in the caller's symbols
+            if sub:
+                idx = idx.subst(sub)
+                env = {k: (v[0].subst(sub) if v[0] is not None else None, v[1].subst(sub) if v[1] is not None else None) for k, v in env.items()}
+            env.update(base_env)
+            if g is f:
+                env = _refine(g, i, env, left)
+            fx = dict(facts)
+            if has_zero_return:
+                # everything after the top-level `if (n == 0) return` runs with n >= 1
+                zr = next(x for x in f.ch(f.body) if f.k(x) == "IfStmt" and any(f.k(y) == "ReturnStmt" for y in f.walk(f.nodes[x]["then"])))
+                if g is not f or (f.nodes[i]["loc"][0] > f.nodes[zr]["loc"][0] and zr not in set(f.ancestors(i))):
+                    fx[ordp] = Poly.const(1)
+            if arr == knots:
+                lo_lim, hi_lim = -pad, NK - one + pad
+            elif arr in ("OUT",) or arr in KERNELS[f.name][1]:
+                lo_lim, hi_lim = Poly.const(0), (O if conv == "order" else O - one)
+            elif arr == "SCRATCH" or arr.startswith("delta_"):
+                # scratch arrays are declared with extent n, n+1 or degree: the tightest is n (order convention) / degree
+                lo_lim, hi_lim = Poly.const(0), ((O - one) if conv == "order" and f.name == "bspline_deriv_nonzero" else (O if conv == "order" else O - one))
+            else:
+                continue
+            # the guarded reads in the shift-loop conditions: knots[left] under left >= 0, knots[left+1] under left < nknots-1
+            in_shift = any(g.k(a) == "WhileStmt" for a in g.ancestors(i))
+            e = dict(env)
+            if in_shift and g is f:
+                # the read sits behind its own guard in the same condition: knots[left] after `left >= 0 &&`, knots[left+1] after `left < nknots-1 &&`
+                e[left] = (Poly.const(0), NK - Poly.const(2))
+            hi = _bound(idx, e, "hi")
+            lo = _bound(idx, e, "lo")
+            ok = hi is not None and lo is not None and _nonneg(hi_lim - hi, fx) and _nonneg(lo - lo_lim, fx)
+            n_ob += 1
+            C.ob("KB-5", where, "%s[%s]@%d" % (arr, g.render(g.nodes[i]["ch"][1]).replace(" ", ""), g.nodes[i]["loc"][0]), ok, g.loc(i),
+                 "index %r ranges over [%r, %r]; allowed [%r, %r]" % (idx, lo, hi, lo_lim, hi_lim))
+    return n_ob
